@@ -94,7 +94,9 @@ def tbase (lt rt : UpLo) (M K N V : Nat) (bl : Blocking) : List Seg :=
     else []
   part1 ++ part2 ++ part3
 
-/-- `_tmatmul_base_masked<T,M,K,N,Lhs,Rhs>`: only the `M0..M1` row loop clips the `k` range -/
+/-- `_tmatmul_base_masked<T,M,K,N,Lhs,Rhs>`: every call of `interior_block_tmatmul_impl` in this kernel omits the tag arguments
+    (they default to General: no clipping), so only the two hand-written column loops of the `M0..M1` row loop (single vector,
+    masked remainder) clip the `k` range -/
 def tbaseMasked (lt rt : UpLo) (masks : Bool) (M K N V : Nat) (bl : Blocking) : List Seg :=
   let u := bl.u; let nR := bl.nR; let nC := bl.nC
   let B := nR * u
@@ -112,7 +114,7 @@ def tbaseMasked (lt rt : UpLo) (masks : Bool) (M K N V : Nat) (bl : Blocking) : 
     (forRange j1 N w).flatMap (fun j => interiorMask masks K i j u nR w)
   let i0 := forExit 0 M0 B
   let part2 := (forRange i0 M1 u).flatMap fun i =>
-    (forRange 0 N0 IB).flatMap (fun j => tinterior lt rt K V i j u 1 nC) ++
+    (forRange 0 N0 IB).flatMap (fun j => interior K V i j u 1 nC) ++
     (forRange j0 N1 V).map (fun j => tblock (rowsFrom i u) (colsAsc j V) 0 (kfirst lt rt i j) (klast lt rt K u V i j)) ++
     (forRange j1 N w).map (fun j => tblock (rowsFrom i u) (maskCols masks j w) 0 (kfirst lt rt i j) (klast lt rt K u V i j))
   let i1 := forExit i0 M1 u
